@@ -9,7 +9,8 @@ VT == {"int", "string", "nil"}
 
 MCNext ==
   \/ /\ UNCHANGED npub
-     /\ \/ \E k \in Keys, t \in Targets, c \in Ctxs \cup {0}, r \in {"ok", "panic"} : Subscribe(k, t, c, r)
+     /\ \/ \E k \in Keys, t \in Targets, c \in Ctxs \cup {0}, r \in {"ok", "panic"} : Subscribe(k, t, c, c # 0 /\ t = 1, r)
+        \/ \E s \in reg : AutoUnsub(s)
         \/ \E k \in Keys, t \in Targets, r \in {"ok", "panic"} : Unsubscribe(k, t, r)
         \/ \E g \in Pubs : \E s \in (IF g \in Publishing THEN inflight[g].pending ELSE {}) :
                PubDeliver(g, s, Len(queue[s.t]) <= Cap[s.t]) \/ PubDrop(g, s)
